@@ -232,7 +232,9 @@ func (w *c06) write(shape string, size int) c06Stmt {
 				var c string
 				if k == 1 {
 					// second command carries an interpolation
-					c = w.hole(1, &tblLetter, nil, nil) + " {{.A}} " + w.hole(size, &tblCmd, nil, &tblCmdEdge)
+					// only a body's first command has to start with a letter: a later one may
+					// start with any non-blank command byte (./tool, 2to3, -x; seeded change C06c)
+					c = w.hole(1, &tblCmdEdge, nil, nil) + " {{.A}} " + w.hole(size, &tblCmd, nil, &tblCmdEdge)
 				} else {
 					c = w.hole(size+1, &tblCmd, &tblLetter, &tblCmdEdge)
 				}
